@@ -3,14 +3,16 @@ CONSTANTS
   Members = {"p", "q", "r"}
   Vals = {1, 2, 3, 4}
   HwMax = 3
+  HwModes = {"clip", "refuse"}
   Depth = 5
+  Depth2 = 4
   Layouts = {"combined", "separate"}
   WM = {"q", "r"}
   WV = {4}
   AM = {"p"}
-  AV = {3}
+  AV = {1}
   RM = {"r"}
-  SWV = {0}
+  SWV = {2}
   SAV = {1}
   RS = TRUE
 CONSTRAINT Bound
